@@ -224,6 +224,27 @@ def run(ctx):
     G.no_shared_default_writes(ctx, "R6", ["src/pkgcore/ebuild/ebd_ipc.py"])
     ctx.floor("R6", 1)
 
+    # ---- R7 a mode the python implementation cannot apply goes to install(1); option state is per request ---------------
+    pio = P.func("pkgcore.ebuild.ebd_ipc", "_InstallWrapper._parse_install_options")
+    fb = [n for n in A.body_walk(pio.node) if isinstance(n, ast.If) and any(isinstance(r, ast.Return) and isinstance(r.value, ast.Constant) and r.value.value is False for b_ in n.body for r in ast.walk(b_))]
+    ctx.check("R7", pio, bool(fb), "fallback-present", "_parse_install_options can hand the request to the external install command")
+    for n in fb:
+        asks_mode = any(isinstance(c, ast.Compare) and isinstance(c.left, ast.Attribute) and c.left.attr == "mode" and isinstance(c.ops[0], (ast.Is, ast.Eq)) and A.is_const(c.comparators[0], None) for c in ast.walk(n.test))
+        ctx.check("R7", pio, asks_mode, "unparsed-mode-falls-back",
+                  "a -m value that could not be parsed as octal (mode is None) falls back to install(1)",
+                  f"the fallback test `{A.unparse(n.test)[:70]}` no longer looks at `mode is None`: a symbolic mode (-m u=rwx,go=rx) is accepted by the python implementation, which then "
+                  f"skips chmod — files keep the umask default, an invalid mode is reported as success", node=n)
+    ic = P.func("pkgcore.ebuild.ebd_ipc", "IpcCommand.__call__")
+    from ..core.cfg import cfg_of
+    g7 = cfg_of(ic.node)
+    resets = [g7.node_of(st) for t, v, st in A.assignments(ic.node) if A.self_attr(t) == "opts" and isinstance(v, ast.Call)]
+    parses = [g7.node_of(c) for c in A.calls(ic.node) if A.unparse(c.func) == "self.parse_args"]
+    ok = bool(resets) and bool(parses) and g7.find_path([g7.entry], lambda n: n in parses, avoid=lambda n: n in resets) is None
+    ctx.check("R7", ic, ok, "options-fresh-per-request", "every request starts from a fresh option namespace (self.opts = Namespace() before parse_args)",
+              "IpcCommand.__call__ no longer creates a fresh `self.opts` before parsing: the helper object is reused for the whole operation and argparse only fills in attributes that "
+              "are missing, so a flag of an earlier request (-r) stays set for later ones")
+    ctx.floor("R7", 3)
+
 
 def _conjuncts(test):
     return list(test.values) if isinstance(test, ast.BoolOp) and isinstance(test.op, ast.And) else [test]
